@@ -293,6 +293,16 @@ impl Ctx {
         self.tier == Tier::Quick
     }
 
+    /// Case count of a generated (proptest) sub-check: the thorough tier runs THOROUGH_MULT times the count the
+    /// module states (sizes, ranges and budgets are untouched; dense sweeps and the statistical driver size themselves).
+    pub fn thorough_cases(&self, cases: u64) -> u64 {
+        if self.tier == Tier::Thorough {
+            cases.saturating_mul(thorough_mult())
+        } else {
+            cases
+        }
+    }
+
     /// Pick the work size for the current tier.
     pub fn scale(&self, quick: u64, thorough: u64) -> u64 {
         match self.tier {
@@ -459,6 +469,21 @@ impl Ctx {
         S: Strategy<Value = C>,
         C: Serialize + Clone + std::fmt::Debug,
     {
+        let cases = self.thorough_cases(cases);
+        self.run_prop_raw(sub, cases, strat, test)
+    }
+
+    /// `run_prop` with exactly `cases` cases (no tier multiplier).
+    fn run_prop_raw<S, C>(
+        &mut self,
+        sub: &str,
+        cases: u64,
+        strat: S,
+        test: impl Fn(&mut Ctx, &C) -> R,
+    ) where
+        S: Strategy<Value = C>,
+        C: Serialize + Clone + std::fmt::Debug,
+    {
         let mut seed32 = [0u8; 32];
         let s = mix_seed(self.seed, &format!("{}/{}", self.property, sub), 0);
         for (i, b) in seed32.iter_mut().enumerate() {
@@ -547,6 +572,7 @@ impl Ctx {
         FT: Fn(&mut Ctx, &C) -> R + Sync,
     {
         let threads = threads.max(1);
+        let cases = self.thorough_cases(cases);
         let per = (cases + threads as u64 - 1) / threads as u64;
         let mut locals: Vec<Ctx> = (0..threads)
             .map(|t| {
@@ -560,7 +586,7 @@ impl Ctx {
                 let mk = &mk;
                 let test = &test;
                 sc.spawn(move || {
-                    c.run_prop(sub, per, mk(), |cx, v| test(cx, v));
+                    c.run_prop_raw(sub, per, mk(), |cx, v| test(cx, v));
                 });
             }
         });
@@ -679,6 +705,11 @@ impl Ctx {
 pub static INCONCLUSIVE: AtomicI32 = AtomicI32::new(0);
 
 /// Work multiplier of the quick tier (see `Ctx::scale`); `VCHECK_QUICK_MULT` overrides it.
+pub fn thorough_mult() -> u64 {
+    static M: std::sync::OnceLock<u64> = std::sync::OnceLock::new();
+    *M.get_or_init(|| std::env::var("VCHECK_THOROUGH_MULT").ok().and_then(|s| s.parse().ok()).filter(|m| *m >= 1).unwrap_or(3))
+}
+
 pub fn quick_mult() -> u64 {
     static M: std::sync::OnceLock<u64> = std::sync::OnceLock::new();
     *M.get_or_init(|| std::env::var("VCHECK_QUICK_MULT").ok().and_then(|s| s.parse().ok()).filter(|m| *m >= 1).unwrap_or(4))
